@@ -63,6 +63,7 @@ func genAPIStress(r *rand.Rand, tier string) Case {
 	calls := 40 + r.Intn(80)
 	seed := r.Int63()
 	var made int64
+	var transient atomic.Value
 	var wg sync.WaitGroup
 	for g := 0; g < ng; g++ {
 		wg.Add(1)
@@ -71,6 +72,11 @@ func genAPIStress(r *rand.Rand, tier string) Case {
 			rr := rand.New(rand.NewSource(seed + int64(g)))
 			for i := 0; i < calls; i++ {
 				t := tors[rr.Intn(len(tors))]
+				if x, ok := transient.Load().(*torrent.Torrent); ok && x != nil && rr.Intn(3) == 0 {
+					_ = x.Stats()
+					_ = x.Peers()
+					_ = x.Trackers()
+				}
 				switch rr.Intn(20) {
 				case 0:
 					_ = t.Stats()
@@ -102,6 +108,7 @@ func genAPIStress(r *rand.Rand, tier string) Case {
 					_ = s.Stats()
 				case 14:
 					if nt, err := s.AddTorrent(bytes.NewReader(files[2]), &torrent.AddTorrentOptions{Stopped: rr.Intn(2) == 0}); err == nil {
+						transient.Store(nt) // the others poll it while it is being removed
 						_ = nt.Stats()
 						_ = s.RemoveTorrent(nt.ID(), false)
 					}
